@@ -297,8 +297,8 @@ Definition step (o : op) (c : cat) : bool * cat :=
       | None => (false, c)
       | Some cl =>
         if fn_depends x tb then (false, c)      (* "has a functional index dependency" *)
-        else if fk_uses_col c t x || cpk cl || mem x (pk_cols tb) || (isnil (tpk tb) && existsb (fun i => iuniq i && mem x (icols i)) (tidx tb))
-        then (* column of a foreign key (error), primary key column (by flag or by PkOrdinals, which differ once a rename
+        else if fk_uses_col c t x || mem x (pk_cols tb) || (isnil (tpk tb) && existsb (fun i => iuniq i && mem x (icols i)) (tidx tb))
+        then (* column of a foreign key (error), primary key column (as PkOrdinals has it; the PrimaryKey flag does not count once a rename
                 has garbled the key) or column of a UNIQUE index of a keyless table
                 (panic in the table rewrite): all after dropConstraints has removed the checks on the column *)
              (false, with_tables c (set_tbl t (drop_chk_col x tb) (tables c)))
